@@ -18,7 +18,8 @@ THEOREMS = ['Fsic.C11.' + n for n in [
     'copy_independent', 'siblings_disjoint', 'instance_class_disjoint', 'sibling_history_invisible',
     'class_invisible_to_instance_history', 'ops_local', 'trace_t_local', 'interleaved_disjoint',
     'interleaved_independent', 'interleaved_independent_ops', 'copy_resync_independent',
-    'assignFrom_inplace_copies_values']]
+    'assignFrom_inplace_copies_values', 'failed_copy_is_identity', 'deepcopy_uncopyable', 'worldOK_after_copy',
+    'successive_copies_disjoint']]
 RULE = ('programs over real fsic objects: a class (VectorContainer; parser-built / hand-written / default-inheriting '
         'BaseModel subclasses; BaseLinker subclasses with two nested submodels; with and without AliasMixin / '
         'TracerMixin, TRACE_VARIABLES None or a class-level list), two sibling instances over range / list spans, a '
@@ -27,7 +28,9 @@ RULE = ('programs over real fsic objects: a class (VectorContainer; parser-built
         'NESTED values (list, dict, nested list, tuple of lists, namedtuple holding a dict, tuple of ndarrays, dict of '
         'lists) and in-place edits of their inner lists / dicts / arrays, linkers built with DEFAULT arguments '
         '(`Linker()`, submodels stored by the caller afterwards), reads through names (failed look-ups included) and '
-        'run-time edits of the INSTANCE aliases dict (re-point / add / remove), variables named like class members '
+        'run-time edits of the INSTANCE aliases dict (re-point / add / remove), COPIES THAT RAISE (an attribute deepcopy '
+        'cannot copy — generator, dict.keys() view, lock — directly / inside a list / inside a tuple / in a submodel: '
+        'every route must raise and leave no trace, then the attribute is replaced and copying goes on), variables named like class members '
         '(size, copy, eval, nbytes, LAGS, CODE, …) and underscore twins (`Y` and `_Y`), '
         'trace_t, class-level list mutations, the same through submodels, and RE-SYNCHRONISATION: a whole variable '
         'assigned from ANOTHER object of the class (copy / sibling / submodel) as attribute, string key, replace_values, '
@@ -351,9 +354,28 @@ def gen_case(rng):
         raise AssertionError(o)
 
     ncopies = 0
+    episodes = 0
     for _ in range(rng.randrange(3, 14)):
         u = rng.random()
-        if u < 0.18 and ncopies < 3:
+        if u > 0.93 and episodes == 0:
+            # a copy that RAISES in the middle of the history: an attribute deepcopy cannot copy is added, every
+            # route must raise and leave no trace, the attribute is then replaced and copying goes on as before
+            episodes += 1
+            r = rng.choice(roots)
+            x = fresh_name('unc')
+            what = rng.choice(['generator', 'dict_keys', 'lock'])
+            shape = rng.choice(['direct', 'in-list', 'in-tuple'])
+            leaf = {'t': 'uncopyable', 'what': what}
+            spec_ = leaf if shape == 'direct' else {'t': 'list' if shape == 'in-list' else 'tuple', 'items': ['k', leaf]}
+            nodes, _ = hc.spec_nodes(spec_, [], x)
+            prog.append({'c': 'op', 'r': r, 'op': {'o': 'buildAttr', 'x': x, 'shape': 'uncopyable:' + what + ':' + shape,
+                                                   'spec': spec_, 'nodes': nodes}})
+            holders = [r] + [q for q in roots if r in sh[q].get('subs', {}).values()]
+            for q in holders:
+                for route in sorted(hc.COPY_ROUTES):
+                    prog.append({'c': 'copyfail', 'of': q, 'route': route})
+            prog.append({'c': 'op', 'r': r, 'op': {'o': 'setAttrImm', 'x': x, 'v': 0}})
+        elif u < 0.18 and ncopies < 3:
             src = rng.choice(roots)
             dst = f'c{ncopies}'
             ncopies += 1
@@ -699,6 +721,97 @@ def alias_edit_history(x):
     return done
 
 
+UNCOPYABLE = ['generator', 'dict_keys', 'lock']
+
+
+def dict_keys_of(x):
+    out = [sorted(map(str, x.__dict__))]
+    if isinstance(x, BaseLinker):
+        out += [sorted(map(str, v.__dict__)) for v in x.submodels.values()]
+    return out
+
+
+def failed_copy_oracle(rep, case, world, src):
+    """A copy that raises must leave no trace: an uncopyable attribute is added (directly, inside a list, inside a
+    tuple; on a linker also in a submodel), every route must raise and the original stay exactly as it was
+    (`__dict__` keys included); after the attribute is replaced every route must again give new, equal, independent
+    objects — two successive copies distinct and sharing nothing."""
+    n = 0
+    for what in UNCOPYABLE:
+        for shape in ('direct', 'in-list', 'in-tuple', 'in-submodel'):
+            w = world()
+            orig = w.roots[src]
+            holder = orig
+            if shape == 'in-submodel':
+                if not (isinstance(orig, BaseLinker) and orig.submodels):
+                    continue
+                holder = next(iter(orig.submodels.values()))
+            leaf = hc.build_value({'t': 'uncopyable', 'what': what})
+            value = leaf if shape in ('direct', 'in-submodel') else ['k', leaf] if shape == 'in-list' else ('k', leaf)
+            try:
+                holder.add_attribute('zz_unc', value)
+            except Exception:   # noqa: BLE001
+                continue
+            rep.dist[f'oracle:copy-that-raises:{what}:{shape}'] += 1
+            case_ = dict(case, failed_copy=[src, what, shape])
+            before = (hc.observe(orig), dict_keys_of(orig))
+            for route in sorted(hc.COPY_ROUTES):
+                n += 1
+                try:
+                    got = hc.COPY_ROUTES[route](orig)
+                except Exception:   # noqa: BLE001  (HEAD: TypeError from copy.deepcopy)
+                    got = None
+                else:
+                    # a copy was returned although the attribute cannot be copied: it must not share it
+                    h_attr = got.submodels[next(iter(got.submodels))] if shape == 'in-submodel' else got
+                    if any(o is leaf for _, o in _walk_all(h_attr.__dict__.get('zz_unc'))):
+                        violate(rep, 'uncopyable-attribute-shared', f'{route}: the copy holds the very same {what} '
+                                f'object as the original', case_)
+                after = (hc.observe(orig), dict_keys_of(orig))
+                if after != before:
+                    fields = sorted({top_field(p) for p in hc.diff_paths(before[0], after[0])}) or ['__dict__ keys']
+                    violate(rep, 'failed-copy-changed-original', f'{route}: a copy that raised ({what}, {shape}) left '
+                            f'the original changed: {fields}; keys {sorted(set(map(str, after[1])) ^ set(map(str, before[1])))[:3]}',
+                            case_)
+                    before = after
+            # the attribute is replaced: copying must work again, and be clean
+            if shape == 'in-submodel' or shape == 'direct' or True:
+                holder.__setattr__('zz_unc', 0)
+            copies = []
+            for route in sorted(hc.COPY_ROUTES):
+                for _ in range(2):
+                    n += 1
+                    try:
+                        copies.append((route, hc.COPY_ROUTES[route](orig)))
+                    except Exception as e:   # noqa: BLE001
+                        violate(rep, 'copy-after-failed-copy:raises', f'{route}: after a failed copy ({what}, {shape}) '
+                                f'and replacing the attribute, copying raises {type(e).__name__}', case_)
+            objs = [('orig', orig)] + [(f'{r}#{i}', c) for i, (r, c) in enumerate(copies)]
+            for i, (na, xa) in enumerate(objs):
+                for nb, xb in objs[i + 1:]:
+                    if xa is xb:
+                        violate(rep, 'copy-after-failed-copy:not-fresh', f'{na} and {nb} are the same object after a '
+                                f'failed copy ({what}, {shape})', case_)
+            ob = hc.observe(orig)
+            for r_, c in copies:
+                if hc.observe(c) != ob or type(c) is not type(orig):
+                    fields = sorted({top_field(p) for p in hc.diff_paths(ob, hc.observe(c))})
+                    violate(rep, 'copy-after-failed-copy:not-equal', f'{r_}: copy after a failed copy differs from the '
+                            f'original in {fields}', case_)
+            shared = hc.cross_groups(objs)
+            if shared:
+                violate(rep, 'copy-after-failed-copy:shares', f'objects share mutable state after a failed copy '
+                        f'({what}, {shape}): {shared[:3]}', case_)
+    return n
+
+
+def _walk_all(x):
+    ps = []
+    if x is not None:
+        hc.walk('v', x, ps, is_root=True)
+    return ps
+
+
 RESYNC_FORMS = ['attr', 'item', 'replace_values', 'values', 'view', 'astype', 'list', 'tolist-item', 'scalar']
 AFTER_RESYNC = ('api:setitem-label', 'api:iadd-slice', 'api:solve', 'api:solve_t', 'api:status', 'api:iterations',
                 'api:setattr-scalar', 'api:setitem')
@@ -858,6 +971,8 @@ def oracle_(rep, case, prep=None, forms=None):
                 evaluations += twin_resync(rep, 'copy', f'{route}({src})', src, case,
                                            lambda src=src, route=route: rebuild(src, route, True), forms)
             rep.dist['oracle:copy-pairs'] += 1
+    for src in src_candidates:
+        evaluations += failed_copy_oracle(rep, case, world, src)
     # siblings and class
     if 'a' in case['roots'] and 'b' in case['roots']:
         def sib(flip=False):
@@ -989,6 +1104,8 @@ def run(ctx, rep):
                         rep.dist['instance-aliases-edit:' + inner['edit']] += 1
                     if inner['o'] == 'buildAttr':
                         rep.dist['attribute-shape:' + inner['shape']] += 1
+                if cmd['c'] == 'copyfail':
+                    rep.dist['copy-that-raises:' + cmd['route']] += 1
                 if cmd['c'] == 'subadd':
                     rep.dist['linker-default-arguments:submodel stored by caller'] += 1
             structural = any(c['c'] == 'op' and c['op']['o'] != 'setCell' for c in case['prog'])
@@ -1246,7 +1363,8 @@ def replay(ctx, rep, case):
         for v in tmp.violations:
             same = (v['case'].get('pair') == case.get('pair') and v['case'].get('mutation') == case.get('mutation')
                     and v['case'].get('resync') == case.get('resync')
-                    and (v['case'].get('behaviour') or [None])[0] == (case.get('behaviour') or [None])[0])
+                    and (v['case'].get('behaviour') or [None])[0] == (case.get('behaviour') or [None])[0]
+                    and v['case'].get('failed_copy') == case.get('failed_copy'))
             if same or 'pair' not in case:
                 rep.violate(v['key'], v['what'], v['case'])
         print('  impl :', real[:300])
